@@ -318,7 +318,7 @@ pub async fn main() -> Result<()> {
     };
 
     if r#override || format {
-        return update_test_files(all_files, &engine, config, format).await;
+        return update_test_files(all_files, &engine, config, &labels, format).await;
     }
 
     let mut report = Report::new(junit.clone().unwrap_or_else(|| "sqllogictest".to_string()));
@@ -586,10 +586,14 @@ async fn update_test_files(
     files: Vec<PathBuf>,
     engine: &EngineConfig,
     config: DBConfig,
+    labels: &[String],
     format: bool,
 ) -> Result<()> {
     for file in files {
         let mut runner = Runner::new(|| engines::connect(engine, &config));
+        for label in labels {
+            runner.add_label(label);
+        }
         runner.set_var(well_known::DATABASE.to_owned(), config.db.clone());
 
         if let Err(e) = update_test_file(&mut std::io::stdout(), &mut runner, &file, format).await {
